@@ -456,6 +456,8 @@ def r4b_handover(rep, src):
 
         def split_hook(it, a, k):
             got['split'] = (list(a), dict(k))
+            for x_ in a[1:2]:
+                it.seq(x_)          # (the splitter reads the lines it is given: a generator runs now)
             return (it.h.new_list([]), it.h.new_list([b'A: b']), it.h.new_list([]))
         heap = H.Heap(mod, hooks={bname: base_hook, '.split_gpg_and_payload': split_hook, '._bytes': lambda it, a, k: b'A: b'})
         it = H.Interp(heap)
